@@ -20,7 +20,7 @@ import numpy as np
 
 from ..sim import gen_sched, HarnessError
 from ..util import A, L, Result, sig6, digest, random_composition
-from .common import SimRec, gen_simplex, trim
+from .common import SimRec, gen_simplex, trim, tail
 
 ID = "C19"
 CHUNK = 4
@@ -90,8 +90,8 @@ def setup():
 # ---------------------------------------------------------------------------
 def gen_case(rng, tier):
     rs = np.random.RandomState(rng.getrandbits(32))
-    d = rng.randint(1, 3)
-    c = rng.randint(1, 2)
+    d = tail(rng, 1, 3, [9, 17], 0.04)
+    c = tail(rng, 1, 2, [5, 9], 0.04)
     scale = 10.0 ** rng.uniform(-1, 1)
     means = sig6(rs.randn(c, d) * 2 * scale)
     variances = sig6(rs.uniform(0.5, 2.0, size=(c, d)) * scale * scale)
@@ -101,7 +101,7 @@ def gen_case(rng, tier):
     nc = rng.randint(2, 3)
     y0 = list(range(nc)) + [rng.randrange(nc) for _ in range(n0 - nc)]
     rng.shuffle(y0)
-    N = rng.randint(6, 10)
+    N = tail(rng, 6, 10, [17, 33], 0.04)
     ys = list(range(nc)) + [rng.randrange(nc) for _ in range(N - nc)]
     rng.shuffle(ys)
     stat_rows = [sorted(rng.sample(range(n0), rng.randint(2, 4))) for _ in range(N)]
@@ -130,7 +130,7 @@ def gen_case(rng, tier):
             continue
         o = {"op": name, "np_seed": rng.randint(0, 2 ** 31 - 1), "X": rng.choice(["X0", "X1"]),
              "backend": rng.choice(["np", "np", "da", "bag"]),
-             "sel": rng.sample(range(N), rng.randint(1, min(5, N))),
+             "sel": rng.sample(range(N), min(N, tail(rng, 1, min(5, N), [9, 17], 0.04))),
              "it": rng.randint(1, 2), "flag": rng.random() < 0.5,
              "max_iter": rng.choice([0, 0, 1, 2, 3]),
              "init": rng.choice(["array", "array", "random"]),
